@@ -51,7 +51,7 @@ fn stream(ctx: &mut Ctx) {
     let b = ctx.cfg.bs;
     let (iv, _) = stream_iv(ctx, d.flavor, b);
     let (len, rc) = wl::nbytes(&mut ctx.rng, b, ctx.cfg.par, ctx.tier);
-    let (msg, _) = wl::data(&mut ctx.rng, len);
+    let (msg, _) = mode_data(ctx, len);
     let (sched, sc) = wl::byte_schedule(&mut ctx.rng, len, b);
     ctx.note("iv", J::s(hex_short(&iv)));
     ctx.note("msg", J::s(hex_short(&msg)));
@@ -112,9 +112,9 @@ fn buffered(ctx: &mut Ctx) {
     let name = format!("cfb-buf/{}", dir.name());
     ctx.subject(&name);
     let b = ctx.cfg.bs;
-    let (iv, _) = wl::iv(&mut ctx.rng, b);
+    let (iv, _) = mode_iv(ctx, b);
     let (len, rc) = wl::nbytes(&mut ctx.rng, b, ctx.cfg.par, ctx.tier);
-    let (msg, _) = wl::data(&mut ctx.rng, len);
+    let (msg, _) = mode_data(ctx, len);
     let (sched, sc) = wl::byte_schedule(&mut ctx.rng, len, b);
     ctx.note("iv", J::s(hex_short(&iv)));
     ctx.note("msg", J::s(hex_short(&msg)));
@@ -173,12 +173,12 @@ fn prefix(ctx: &mut Ctx) {
     let name = format!("{}/prefix", subj_name(&d));
     ctx.subject(&name);
     let b = ctx.cfg.bs;
-    let (iv, _) = wl::iv(&mut ctx.rng, d.iv_len);
+    let (iv, _) = mode_iv(ctx, d.iv_len);
     let (mut len, rc) = wl::nbytes(&mut ctx.rng, b, ctx.cfg.par, ctx.tier);
     if fam == Family::Cfb8 {
         len = len.min(300);
     }
-    let (msg, _) = wl::data(&mut ctx.rng, len);
+    let (msg, _) = mode_data(ctx, len);
     ctx.note("iv", J::s(hex_short(&iv)));
     ctx.note("msg", J::s(hex_short(&msg)));
     // cut points: every k within the last two blocks + a few others
